@@ -298,6 +298,12 @@ def mp_cases(M):
         out.append([('t', None, b'z' * (M - hdr_t + d)), ('u', None, b'w' * (3 * M))])
     half = (M - 2 * hdr_t) // 2
     out.append([('t', None, b'z' * half), ('u', None, b'y' * (M - 2 * hdr_t - half)), ('v', None, b'w' * (3 * M))])
+    # a part with an EMPTY file name (a file input left empty): whichever way it is classified, no more than M bytes of
+    # text may reach request.forms
+    for e in (0, 1, M, M + 1, 3 * M):
+        out.append([('e', '', b'v' * e)])
+    out.append([('t', None, b'z' * 2), ('e', '', b'v' * (3 * M))])
+    out.append([('e', '', b'v' * (M // 2 + 1)), ('g', '', b'u' * (M // 2 + 1))])
     return out, hdr_t, hdr_f
 
 
@@ -322,7 +328,15 @@ def judge_mp(obs, L, M, fields, total, longest=0):
         if not delivered or code != 200:
             return 'mp-not-delivered', f'form within the in-memory budget (cost {cost} <= {M}) not delivered: status {code}'
     if delivered:
-        if seen.get('forms') != exp_forms or seen.get('files') != exp_files:
+        in_forms = sum(len(v) for v in (seen.get('forms') or {}).values() if isinstance(v, (str, bytes)))
+        if in_forms > M:
+            return 'mp-text-over-budget', f'request.forms holds {in_forms} characters of text with max_memfile_size={M}'
+        # parts with an empty file name are not classified by the statement: only the budget above applies to them
+        unclassified = {nm for nm, fn, _ in fields if fn == ''}
+        got_forms = {k: v for k, v in (seen.get('forms') or {}).items() if k not in unclassified}
+        got_files = {k: v for k, v in (seen.get('files') or {}).items() if k not in unclassified}
+        exp_files = {k: v for k, v in exp_files.items() if k not in unclassified}
+        if got_forms != exp_forms or got_files != exp_files:
             return 'mp-wrong-content', (f'delivered forms/files differ: forms '
                                         f'{ {k: len(v) for k, v in (seen.get("forms") or {}).items()} } files '
                                         f'{ {k: len(v) for k, v in (seen.get("files") or {}).items()} }')
